@@ -40,6 +40,12 @@ var c15Idents = []c15Ident{
 	{"063000_L..N01", "L", gtfs.DirectionID_True, c15S1.Add(-6*time.Hour - 30*time.Minute), 6*time.Hour + 45*time.Minute},
 }
 
+// c15DirIn: the direction an identity carries in feed k: its own in feed 0, then Unspecified, then the
+// opposite, ...: the entry carries the direction of the last applied update, whichever value that is
+func c15DirIn(id c15Ident, k int) gtfs.DirectionID {
+	return []gtfs.DirectionID{id.dir, gtfs.DirectionID_Unspecified, gtfs.DirectionID_True, gtfs.DirectionID_False}[k%4]
+}
+
 func (i c15Ident) start() time.Time { return i.startDate.Add(i.startTime) }
 func (i c15Ident) uid() string      { return fmt.Sprintf("%d%s", i.start().Unix(), i.id[6:]) }
 
@@ -86,7 +92,7 @@ func c15Feed(k int, states [4]int) *gtfs.Realtime {
 		case 2:
 			startDate = startDate.Local()
 		}
-		trip := gtfs.Trip{ID: gtfs.TripID{ID: id.id, RouteID: id.route, DirectionID: id.dir, HasStartDate: true, StartDate: startDate, HasStartTime: true, StartTime: id.startTime},
+		trip := gtfs.Trip{ID: gtfs.TripID{ID: id.id, RouteID: id.route, DirectionID: c15DirIn(id, k), HasStartDate: true, StartDate: startDate, HasStartTime: true, StartTime: id.startTime},
 			StopTimeUpdates: []gtfs.StopTimeUpdate{{StopID: &stop, Arrival: &gtfs.StopTimeEvent{Time: &arr}}}, IsEntityInMessage: true}
 		if st >= 2 {
 			trip.Vehicle = &gtfs.Vehicle{ID: &gtfs.VehicleID{ID: c15VehicleOf(st)}}
@@ -123,7 +129,7 @@ func c15Reference(history [][4]int) map[string]*c15Entry {
 			if e.assigned && !hasVehicle {
 				continue // ignored: recorded data unchanged
 			}
-			e.tripID, e.route, e.dir, e.start = id.id, id.route, id.dir, id.start()
+			e.tripID, e.route, e.dir, e.start = id.id, id.route, c15DirIn(id, k), id.start()
 			e.vehicle = ""
 			if hasVehicle {
 				e.vehicle = c15VehicleOf(st)
@@ -183,12 +189,19 @@ var c15Windows = []c15Window{
 	{"starts-500ms-after-S1", c15S1.Add(500 * time.Millisecond), farFuture},
 	{"ends-500ms-before-S1", farPast, c15S1.Add(-500 * time.Millisecond)},
 	{"[S1-500ms,S1+500ms]", c15S1.Add(-500 * time.Millisecond), c15S1.Add(500 * time.Millisecond)},
+	// the zero time.Time as "no lower bound": 2000 years before the trips (no Duration is that long)
+	{"from-the-zero-time-to-1s-before-S1", time.Time{}, c15S1.Add(-time.Second)},
 }
 
 func c15Harness(maxLen int, fourth bool) Harness { return c15HarnessT1(maxLen, fourth, 5) }
 
 // c15HarnessT1: t1States = 5 (T1 in absent / unassigned / v1 / v2 / v1 with an empty list) or 6 (also: a vehicle without id)
+// (a negative t1States: T1 alone, over that many states, T2 and T3 absent throughout - for longer histories)
 func c15HarnessT1(maxLen int, fourth bool, t1States int) Harness {
+	single := t1States < 0
+	if single {
+		t1States = -t1States
+	}
 	schemeMaxLen := 2
 	if maxLen >= 4 {
 		schemeMaxLen = 3
@@ -202,6 +215,9 @@ func c15HarnessT1(maxLen int, fourth bool, t1States int) Harness {
 			nsym := t1States * 16
 			if fourth {
 				nsym *= 3 // T4 in {absent, unassigned, vehicle v1}
+			}
+			if single {
+				nsym = t1States
 			}
 			sym := c.Free(fmt.Sprintf("feed[%d]", k), nsym)
 			st := [4]int{sym % t1States, (sym / t1States) % 4, (sym / (4 * t1States)) % 4, sym / (16 * t1States)}
@@ -230,6 +246,9 @@ func c15HarnessT1(maxLen int, fourth bool, t1States int) Harness {
 		if n >= 3 && c.Tier == "quick" {
 			// the window test does not depend on the length of the history: three windows for the long ones
 			windows = []c15Window{c15Windows[0], c15Windows[2], c15Windows[5]}
+			if single {
+				windows = append(windows, c15Windows[8])
+			}
 		}
 		for _, w := range windows {
 			j, ok := buildJournalGuarded(c, feeds, w.start, w.end)
@@ -503,7 +522,7 @@ func init() {
 	register(&Check{
 		ID:    "C15",
 		Level: "model_checking",
-		Rule: "9 / 65 / 257 / 1025 trips over three feeds in 4 appearance patterns x 3 windows x start times around 1.7e9 s or straddling 1e9 s (UIDs of 9 and 10 digits) against per-trip accounting; three trip identities (T1, T2 share start instant and id suffix -> one UID; T3 other suffix and start) each per feed in {absent, unassigned, vehicle v1, vehicle v2} (T1 also: vehicle v1 with an empty update list) = 80 feed symbols (96 with a vehicle without id for T1, in histories of <= 2, thorough 3), the start date carried in a different *time.Location from feed to feed; ALL histories of <= 3 feeds (thorough <= 4) x 8 windows (incl. bounds with a sub-second part), histories of <= 2 (thorough 3) feeds additionally under 4 feed-time schemes (60 s apart, all equal, no timestamps, decreasing); plus a fourth identity T4 (same trip id and start date as T1, another start time) in {absent, unassigned, v1}: 240 symbols, ALL histories of <= 2 (thorough 3) feeds x 8 windows (incl. bounds with a sub-second part); " +
+		Rule: "9 / 65 / 257 / 1025 trips over three feeds in 4 appearance patterns x 3 windows x start times around 1.7e9 s or straddling 1e9 s (UIDs of 9 and 10 digits) against per-trip accounting; three trip identities (T1, T2 share start instant and id suffix -> one UID; T3 other suffix and start) each per feed in {absent, unassigned, vehicle v1, vehicle v2} (T1 also: vehicle v1 with an empty update list) = 80 feed symbols (96 with a vehicle without id for T1, in histories of <= 2, thorough 3), the start date carried in a different *time.Location from feed to feed; ALL histories of <= 3 feeds (thorough <= 4) x 9 windows (incl. bounds with a sub-second part, and the zero time as lower bound), histories of <= 2 (thorough 3) feeds additionally under 4 feed-time schemes (60 s apart, all equal, no timestamps, decreasing); T1 alone in ALL histories of <= 5 (thorough 6) feeds (seen with a vehicle, missing, back without a vehicle, missing again, ...); plus a fourth identity T4 (same trip id and start date as T1, another start time) in {absent, unassigned, v1}: 240 symbols, ALL histories of <= 2 (thorough 3) feeds x 9 windows (incl. bounds with a sub-second part, and the zero time as lower bound); " +
 			"non-trivial = distinct histories of >= 2 feeds; oracle = reference accountant compared field by field (UID, id fields, vehicle, last observed, marked past, update count, stop-level marks), order and uniqueness included",
 		Assumptions: []string{"feeds list their trips in identifier order, as ParseRealtime produces them", "feed times are 60 s apart starting at a fixed instant"},
 		Scenarios: func(tier string) []*Scenario {
@@ -514,6 +533,7 @@ func init() {
 			return []*Scenario{{Name: fmt.Sprintf("all-histories<=%d", n), Bound: 1, Run: c15Harness(n, false)},
 				{Name: fmt.Sprintf("four-identities<=%d", n-1), Bound: 1, Run: c15Harness(n-1, true)},
 				{Name: fmt.Sprintf("vehicle-without-id<=%d", n-1), Bound: 1, Run: c15HarnessT1(n-1, false, 6)},
+				{Name: fmt.Sprintf("one-trip<=%d", n+2), Bound: 1, Run: c15HarnessT1(n+2, false, -4)},
 				{Name: "many-trips", Bound: -1, Run: c15ManyTrips}}
 		},
 	})
